@@ -26,6 +26,7 @@ Record cfg := {
   fl_ty : N -> option N;                 (* Fluent.type when it is a user type *)
   if_ty : N -> option N;                 (* InterpretedFunction.return_type when it is a user type *)
   anc : N -> list N;                     (* _UserType.ancestors (the type itself included or not: both work) *)
+  empty_ty : N -> bool;                  (* Simplifier._has_no_objects: the problem is given and has no object of the type *)
   stat : N -> list expr -> option expr;  (* static fluent applied to constant arguments -> initial value *)
   itab : N -> list expr -> option expr   (* interpreted function applied to constant arguments -> constant *)
 }.
@@ -277,9 +278,9 @@ Fixpoint subst (x : N) (t : expr) (e : expr) {struct e} : expr :=
 (* ---------------------------------------------------------------- walk_exists / walk_forall *)
 Definition bound_in (x : N) (vs : list (N * N)) : bool := memN x (map fst vs).
 
-(* vars = [var for var in expression.variables() if var in free_vars] *)
-Definition prune (vs : list (N * N)) (body : expr) : list (N * N) :=
-  filter (fun p => memN (fst p) (free_vars body)) vs.
+(* vars = [var for var in expression.variables() if var in free_vars or self._has_no_objects(var.type)] *)
+Definition prune (G : cfg) (vs : list (N * N)) (body : expr) : list (N * N) :=
+  filter (fun p => memN (fst p) (free_vars body) || empty_ty G (snd p)) vs.
 
 (* vars.remove(variable.variable()): first occurrence *)
 Fixpoint remove_var (x : N) (vs : list (N * N)) : list (N * N) :=
@@ -346,13 +347,13 @@ Definition mkForall (vs : list (N * N)) (b : expr) : expr := match vs with [] =>
 
 (* [resimp] = Simplifier._simplify_rebuilt *)
 Definition walk_exists (G : cfg) (resimp : expr -> expr) (vs : list (N * N)) (body : expr) : expr :=
-  let vs0 := prune vs body in
+  let vs0 := prune G vs body in
   match elim_step G vs0 body with
   | None => mkExists vs0 body
   | Some _ => let '(vs1, b1) := elim_loop G (length vs0) vs0 body in resimp (mkExists vs1 b1)
   end.
 
-Definition walk_forall (vs : list (N * N)) (body : expr) : expr := mkForall (prune vs body) body.
+Definition walk_forall (G : cfg) (vs : list (N * N)) (body : expr) : expr := mkForall (prune G vs body) body.
 
 (* ---------------------------------------------------------------- the walker
    [simp n]: n bounds the nesting of _simplify_rebuilt calls (a nested simplifier started from inside walk_exists);
@@ -371,7 +372,7 @@ Fixpoint simp (G : cfg) (n : nat) : expr -> expr :=
     | EImplies a b => walk_implies (go a) (go b)
     | EIff a b => walk_iff (go a) (go b)
     | EExists vs a => walk_exists G resimp vs (go a)
-    | EForall vs a => walk_forall vs (go a)
+    | EForall vs a => walk_forall G vs (go a)
     | EPlus l => walk_arith false (map go l)
     | EMinus a b => walk_minus (go a) (go b)
     | ETimes l => walk_arith true (map go l)
@@ -398,7 +399,7 @@ Fixpoint simp_ok (G : cfg) (n : nat) : expr -> bool :=
     | EExists vs a =>
         go a &&
         (let body := simp G n a in
-         let vs0 := prune vs body in
+         let vs0 := prune G vs body in
          match elim_step G vs0 body with
          | None => true
          | Some _ =>
@@ -433,7 +434,7 @@ Fixpoint raises (G : cfg) (strict : bool) (n : nat) : expr -> bool :=
     | EExists vs a =>
         go a ||
         (let body := simp G n a in
-         let vs0 := prune vs body in
+         let vs0 := prune G vs body in
          match elim_step G vs0 body with
          | None => false
          | Some _ =>
